@@ -70,7 +70,8 @@ func dump(t *transp.Table, b int) []Lane {
 	return res
 }
 
-var sizes = []int{1, 1, 2, 3, 5, 8, 64, 1000, 1001, 32768, 65537, 65541, 70003, 131077}
+// bucket counts; the last three are 16 MB plus 1, 2, 3 buckets (not a multiple of any worker count)
+var sizes = []int{1, 1, 2, 3, 5, 8, 64, 1000, 1001, 32768, 65537, 65541, 70003, 131077, 524289, 524290, 524291}
 var sigs = []int{0, 1, 2, 3, 4, 5, 6, 0x8000, 0xffff}
 var vals = []int{-10000, -9999, -9990, -9938, -9937, -9936, -9935, -300, 0, 1, 250, 9935, 9936, 9937, 9938, 9950, 9999, 10000}
 var moves = []int{0, 0, 0, 1, 777, 4095 + 4096*5, 32767}
@@ -117,7 +118,7 @@ func main() {
 		}
 		pick := func() (int, int, board.Hash) {
 			nbk := transp.VerifNumBuckets(t)
-			bs := []int{0, nbk - 1, nbk / 2}
+			bs := []int{0, nbk - 1, nbk / 2, max(0, nbk-2), max(0, nbk-3), nbk - 1}
 			b := bs[rng.Intn(len(bs))]
 			sig := sigs[rng.Intn(len(sigs))]
 			if rng.Intn(12) == 0 {
